@@ -27,8 +27,9 @@ meta = {
     "needs_to_manifest": notes[:1500],
     "confirmed": {"demo_on_clean_tree_exit": res["demo_clean_rc"], "demo_with_patch_exit": res["demo_patched_rc"],
                   "demo_with_patch_tail": res.get("demo_patched_tail"), "pinned_suite_with_patch": res["suite"]},
-    "ran": [f"git -C /repo apply seeded/{name}/patch.diff", f"cd /repo && PYTHONPATH=/repo /venv/bin/python /verif/seeded/{name}/demo.py",
-            "pinned pytest command", *[f"./check {p}" for p in props], "git -C /repo checkout -- ."],
+    "ran": ["export of /repo HEAD to a scratch directory R (git archive)", f"PYTHONPATH=R /venv/bin/python seeded/{name}/demo.py   # clean: exit 0",
+            f"git -C R apply seeded/{name}/patch.diff", f"PYTHONPATH=R /venv/bin/python seeded/{name}/demo.py   # patched: exit != 0",
+            "pinned pytest command in R", *[f"./check {p} --repo R" for p in props], "rm -rf R"],
     "checks": {p: {"exit": c["exit"], "reported": c["lines"][:2]} for p, c in res["checks"].items()},
     "caught_by": [p for p, c in res["checks"].items() if c["exit"] == 1],
 }
